@@ -203,6 +203,11 @@ def check_cover(R: Run, key: str, case, src_shape, dst_shape, px, py, r, eps, si
         # outside the independent 5-point envelope; anything the 5-point design would have covered keeps the general key.
         try:
             (slo, shi, spad, sbad), dfun = env
+            # The pixel transform is PARTIAL on the destination when some destination location - one of the 20 boundary
+            # samples or one of the checked pixel centres - has no finite image in the source CRS (independent pyproj mapping).
+            nfin = int((~fin).sum())
+            sbad_samples = sbad
+            sbad = sbad + nfin  # > 0: partial transform; used below wherever the class is decided
             tol_ = 2e-3 if not sbad else 1e-9  # a degenerate envelope of the few samples that survive is judged exactly
             # Boundary samples that the transformer can not convert (outside the other CRS's domain: beyond the horizon of a
             # geostationary / orthographic view ...) are dropped by the planner; when that happens the interior of the
@@ -215,7 +220,8 @@ def check_cover(R: Run, key: str, case, src_shape, dst_shape, px, py, r, eps, si
                 if out.all():
                     ksrc = OFF if sbad else "xcrs-curved-edge-sliver-dropped"
                     what_s = " (every missed location lies outside the 5-samples-per-side envelope of the design" + (
-                        f"; {sbad} of the 20 boundary samples of the destination have no image in the source CRS)" if sbad else ")")
+                        f"; {sbad_samples} of the 20 boundary samples and {nfin} of the checked pixel centres of the destination have no image "
+                        f"in the source CRS)" if sbad else ")")
                 else:
                     what_s = f" ({int((~out).sum())} of them INSIDE the 5-samples-per-side envelope)"
             if miss_dst.any():
@@ -227,11 +233,13 @@ def check_cover(R: Run, key: str, case, src_shape, dst_shape, px, py, r, eps, si
                     # the source region was built from the few boundary samples that have an image: the destination region
                     # inherits that loss whatever the envelope of ITS samples says
                     kdst = OFF
-                    what += f" ({sbad} of the 20 boundary samples of the destination have no image in the source CRS)"
+                    what += (f" ({sbad_samples} of the 20 boundary samples and {nfin} of the checked pixel centres of the destination "
+                             f"have no image in the source CRS)")
                 elif out.all() and not miss_src.any() or (out.all() and (ksrc.endswith("sliver-dropped") or ksrc == OFF)):
                     kdst = OFF if (sbad or dbad or ksrc == OFF) else "xcrs-curved-edge-sliver-dropped"
                     what += " (every dropped pixel lies outside the 5-samples-per-side envelope of the design" + (
-                        f"; {sbad} boundary samples of the destination / {dbad} of the source region have no image in the other CRS)"
+                        f"; {sbad_samples} boundary samples and {nfin} checked pixel centres of the destination / {dbad} boundary samples of "
+                        f"the source region have no image in the other CRS)"
                         if (sbad or dbad) else ")")
                 else:
                     what += f" ({int((~out).sum())} of them INSIDE the 5-samples-per-side envelope)"
